@@ -54,6 +54,8 @@ type containCase struct {
 	Names []string `json:"names"`
 	Pre   string   `json:"pre"` // "", "a", "a/b"
 	ViaX  bool     `json:"via_txtar_x"`
+	// NoDir: the target directory does not exist yet (Write creates it)
+	NoDir bool `json:"no_dir,omitempty"`
 }
 
 const depth = "l1/l2/l3/l4/l5/parent"
@@ -70,7 +72,11 @@ func checkContain(root string, c containCase) string {
 	os.RemoveAll(root)
 	parent := filepath.Join(root, depth)
 	dir := filepath.Join(parent, "dir")
-	os.MkdirAll(dir, 0o777)
+	if c.NoDir {
+		os.MkdirAll(parent, 0o777)
+	} else {
+		os.MkdirAll(dir, 0o777)
+	}
 	os.WriteFile(filepath.Join(parent, "sibling.txt"), []byte("sibling\n"), 0o666)
 	os.WriteFile(filepath.Join(root, "top.txt"), []byte("top\n"), 0o666)
 	switch c.Pre {
@@ -395,7 +401,7 @@ func main() {
 		d := filepath.Join(root, fmt.Sprintf("replay%d", atomic.AddInt64(&rseq, 1)))
 		if c.Kind == "contain" {
 			if v := checkContain(d, *c.Contain); v != "" {
-				return []kit.V{{Key: fmt.Sprintf("%s names=%q pre=%q viaX=%v", violClass(v), c.Contain.Names, c.Contain.Pre, c.Contain.ViaX), What: v, Case: c}}
+				return []kit.V{{Key: fmt.Sprintf("%s names=%q pre=%q viaX=%v nodir=%v", violClass(v), c.Contain.Names, c.Contain.Pre, c.Contain.ViaX, c.Contain.NoDir), What: v, Case: c}}
 			}
 			return nil
 		}
@@ -422,6 +428,14 @@ func main() {
 			if n != "a/../../x" {
 				cases = append(cases, containCase{Names: []string{n}, Pre: pre, ViaX: true})
 			}
+		}
+	}
+	// the target directory does not exist yet: every name alone, and after an
+	// entry that creates it
+	for _, n := range names {
+		cases = append(cases, containCase{Names: []string{n}, NoDir: true}, containCase{Names: []string{"b", n}, NoDir: true})
+		if strings.TrimSpace(n) == n && n != "" {
+			cases = append(cases, containCase{Names: []string{n}, NoDir: true, ViaX: true})
 		}
 	}
 	second := []string{"a", "b/a", "../x", "a/../../y", "/abs", "a/b"}
@@ -467,7 +481,7 @@ func main() {
 		d := filepath.Join(root, fmt.Sprintf("cw%d", w))
 		if v := checkContain(d, c); v != "" {
 			cc := c
-			r.Violation(fmt.Sprintf("%s names=%q pre=%q viaX=%v", violClass(v), c.Names, c.Pre, c.ViaX), fmt.Sprintf("entries %q into a directory holding %q (via txtar-x: %v): %s", c.Names, c.Pre, c.ViaX, v), kase{Kind: "contain", Contain: &cc})
+			r.Violation(fmt.Sprintf("%s names=%q pre=%q viaX=%v nodir=%v", violClass(v), c.Names, c.Pre, c.ViaX, c.NoDir), fmt.Sprintf("entries %q into a directory holding %q (via txtar-x: %v): %s", c.Names, c.Pre, c.ViaX, v), kase{Kind: "contain", Contain: &cc})
 		}
 		atomic.AddInt64(&done, 1)
 		for _, n := range c.Names {
